@@ -70,8 +70,40 @@ summary = ('%d of %d seeded breaking changes are reported as VIOLATION by the ch
            % (len(n_caught), len(n_break), len([r for r in n_break if r[3] == 'ANALYSIS-ERROR']),
               len(n_ref_silent), len(n_ref)))
 text = summary + '\n\n' + '\n'.join(out) + '\n'
+# held-out detection per round (from meta['heldout'], all kept changes)
+import collections
+ho = collections.OrderedDict()
+for d in sorted(os.listdir(os.path.join(HERE, 'seeded'))):
+    mp = os.path.join(HERE, 'seeded', d, 'meta.json')
+    if not os.path.exists(mp):
+        continue
+    m = json.load(open(mp))
+    h = m.get('heldout')
+    if not h or h.get('note', '').startswith('not held out'):
+        continue
+    kind = m.get('kind', 'break')
+    r = ho.setdefault(h['round'], collections.Counter())
+    if kind == 'break':
+        r['break'] += 1
+        r['break:' + h['own']] += 1
+    else:
+        r['ref'] += 1
+        clean = h['own'] == 'silent' and not any(
+            v != 'ok' for v in h.get('others', {}).values())
+        r['ref:clean' if clean else 'ref:not'] += 1
+hlines = ['| round | breaking changes | caught by own check | only ANALYSIS-ERROR | silent | refactorings | all 20 checks silent |',
+          '|---|---|---|---|---|---|---|']
+for rnd, c in sorted(ho.items()):
+    hlines.append('| %s | %d | %d | %d | %d | %d | %d |' % (
+        rnd, c['break'], c['break:VIOLATION'], c['break:ANALYSIS-ERROR'],
+        c['break:silent'], c['ref'], c['ref:clean']))
+htext = ('Held-out detection when each change was collected (before any '
+         'strengthening for it):\n\n' + '\n'.join(hlines) + '\n')
 dp = os.path.join(HERE, 'DESIGN.md')
 s = open(dp).read()
+ha, hb = '<!-- HELDOUT-BEGIN -->', '<!-- HELDOUT-END -->'
+if ha in s and not only:
+    s = s[:s.index(ha) + len(ha)] + '\n' + htext + s[s.index(hb):]
 a, b = '<!-- SEED-MATRIX-BEGIN -->', '<!-- SEED-MATRIX-END -->'
 if a in s and not only:
     s = s[:s.index(a) + len(a)] + '\n' + text + s[s.index(b):]
